@@ -104,6 +104,8 @@ def main():
                                    env=env2, capture_output=True, text=True)
                 lines = [l for l in r.stdout.split("\n") if l.startswith("VIOLATION") or l.startswith("   signature")]
                 verdict = "DETECTED" if r.returncode == 1 else ("MISSED" if r.returncode == 0 else f"HARNESS-ERROR rc={r.returncode}")
+                if r.returncode == 0 and "capped=True" in r.stdout:
+                    verdict = "MISSED-BUT-CAPPED (time budget hit: not a verdict, re-run on a quieter machine)"
                 print(f"{os.path.basename(os.path.dirname(patch)) or patch}: check {c} seed {seed}: {verdict} ({len(lines)//2} signatures, {time.time() - t0:.0f}s)")
                 for l in lines[:6]:
                     print("    " + l[:220])
